@@ -35,3 +35,8 @@ chk("C03",
     "Deadline oracle in the cache's own virtual time: every TTL write (Set or loader) records (unique value, ttl, time at return); any Get / loading Get / Range visit that yields the value and was invoked at or after that latest-possible deadline is a violation. Cases sweep reads across the deadline (dense, or precisely placed while stalled) and at +1 tick / +35 s / +1 h, for TTLs 1 ns..7 d incl. the 30 s cached-clock window, re-timing in both directions, with maintenance stalled by a held policy lock, a blocked removal listener or a SaveCache into a blocking writer for 0.5 s..2 h of virtual time; plus concurrent real-time sweeps.",
     "Virtual time = shifted clock origin (no client call in flight during a shift). The interval between the true deadline and time-at-return + ttl (nanoseconds to microseconds) is not judged. One open finding (stall >= 30 s) is listed in known_findings.json.",
     "deadline-oracle monitor over recorded reads/writes under virtual time + stall injection")
+
+chk("C06",
+    "Reference-model monitor over sequential operation sequences (Set / SetWithTTL / Delete / loading Get / virtual-time steps / ticks / probes; costs 1..room and deliberately above MaxSize through Set, the cost function and the loader; doorkeeper and cost function on/off; plain and loading caches; MaxSize 1..100). The generator keeps model occupancy (live + expired-unreclaimed keys) within MaxSize, so the oracle may demand: Set false only for oversize / doorkeeper first sight and then nothing changes, Set true immediately readable, every live key readable at every probe, never EVICTED, fresh entry after an expired value, oversize values never resident and never displacing anything, reload after an oversize load; final quiescent invariants.",
+    "Sequential client (event order = operation order). The cached clock is refreshed at every virtual time step, as a healthy ticker does. TTL-less Set over a still-running TTL is unspecified and not asserted.",
+    "reference-model monitor (sequential model with occupancy) over generated histories under virtual time")
